@@ -73,6 +73,13 @@ Theorem C20_next_prev : forall c, c_valid (c_prev c) = true -> c_next (c_prev c)
 Proof. exact next_prev. Qed.
 Print Assumptions C20_next_prev.
 
+(* the mem engine's radix iterator (engine/radix_iter.go: one-directional result iterators, re-seek at the current
+   key on every change of direction) answers every raw cursor script exactly like the ideal cursor *)
+Theorem C20_radix_refines_ideal : forall m ops,
+  ksorted m -> rops_run false (r_new m) ops = cops_run false (mkcur m CInv) ops.
+Proof. exact radix_script_is_ideal. Qed.
+Print Assumptions C20_radix_refines_ideal.
+
 (* the exclusive upper bound pebble/rocksdb install for a right-closed range is the closed bound *)
 Theorem C20_upper_bound_successor : forall k mx, bytes_ltb k (mx ++ [0%N]) = bytes_leb k mx.
 Proof. exact bytes_ltb_succ. Qed.
@@ -243,20 +250,20 @@ Proof. exact index_key_roundtrip. Qed.
 Print Assumptions C20_index_key_roundtrip.
 
 (* ===== (5) whole scripts: batches, commits, clears and reads, from the empty engine ===== *)
-Theorem C20_reachable_sorted : forall bounded ss, ksorted (committed (run_db bounded db_empty ss)).
+Theorem C20_reachable_sorted : forall k ss, ksorted (committed (run_db k db_empty ss)).
 Proof. exact reachable_from_empty_sorted. Qed.
 Print Assumptions C20_reachable_sorted.
 
 (* every read of every script is answered as the sorted-map reference answers it (raw cursors with bounds
    excepted: they are engine specific and not part of the contract) *)
-Theorem C20_script_refines_reference : forall bounded ss d,
+Theorem C20_script_refines_reference : forall (k : ekind) ss d,
   ksorted (committed d) -> forallb step_portable ss = true ->
-  run_script bounded d ss = ref_script d ss.
+  run_script k d ss = ref_script d ss.
 Proof. exact script_refines_reference. Qed.
 Print Assumptions C20_script_refines_reference.
 
-Theorem C20_script_engine_independent : forall ss,
-  forallb step_portable ss = true -> run_script true db_empty ss = run_script false db_empty ss.
+Theorem C20_script_engine_independent : forall (k1 k2 : ekind) ss,
+  forallb step_portable ss = true -> run_script k1 db_empty ss = run_script k2 db_empty ss.
 Proof. exact script_engine_independent. Qed.
 Print Assumptions C20_script_engine_independent.
 
@@ -285,7 +292,7 @@ Proof. vm_compute. auto. Qed.
 
 (* a script: put b, merge counter c twice (2^64-1 then 2: wraps to 1), delete-range [a,b\0), commit, read *)
 Example C20_ex_script :
-  run_script false db_empty
+  run_script KRadix db_empty
     [SPut [98%N] [7%N]; SMerge [99%N] (le_encode 8 18446744073709551615); SMerge [99%N] (le_encode 8 2);
      SGet [98%N]; SDelRange [97%N] [98%N; 0%N]; SCommit; SGet [98%N]; SGet [99%N]]
   = [RNone; RNone; RNone; RVal None; RNone; RCommit true; RVal None; RVal (Some (le_encode 8 1))].
